@@ -72,6 +72,10 @@ def mk_field(base, name):
                 return ft
     if base[0] == "tuple" and name.isdigit() and int(name) < len(base[1]):
         return base[1][int(name)]
+    if base[0] == "call" and base[1] == "core::slice::split_at" and len(base[2]) == 2 and name in ("0", "1") \
+            and base[2][1] == ("call", "core::slice::len", (base[2][0],)):
+        # x.split_at(x.len()) is (x, [])
+        return base[2][0] if name == "0" else ("array", ())
     if base[0] == "upd":
         # ("upd", inner, ((path, val), ...))
         inner, ups = base[1], base[2]
@@ -263,6 +267,11 @@ def simplify_atom(atom):
             return False
         if a[0] == "lit" and b[0] == "lit" and a[1] == b[1] == "int":
             return a[2] < b[2]
+        # a position found in x is an index of x: position(iter(x), p)!Some < len(x)
+        if a[0] == "payload" and a[2] == "Some" and a[1][0] == "call" and a[1][1] in ("std::iter::Iterator::position", "std::iter::Iterator::rposition") \
+                and len(a[1][2]) == 2 and a[1][2][0][0] == "call" and a[1][2][0][1] == "core::slice::iter" and len(a[1][2][0][2]) == 1 \
+                and b == ("call", "core::slice::len", (a[1][2][0][2][0],)):
+            return True
         return atom
     if k == "empty":
         t = atom[1]
